@@ -1228,7 +1228,20 @@ class Lib:
         inv = z3.Function(uid("perminv"), I, I)
         j, j2 = bvar("j"), bvar("j")
         st.assume(z3.ForAll([j], z3.Implies(z3.And(j >= 0, j < n), z3.And(perm(j) >= 0, perm(j) < n, inv(perm(j)) == j)), patterns=[perm(j)]))
-        st.assume(z3.ForAll([j], z3.Implies(z3.And(j >= 0, j < n), z3.And(inv(j) >= 0, inv(j) < n, perm(inv(j)) == j)), patterns=[inv(j)]))
+        # alternative trigger: a mention of the j-th element of the unsorted sequence gives its position in the sorted one
+        pats = [inv(j)]
+        try:
+            ej = s.at(j)
+            ej = [t for t in (key_terms(ej) if isinstance(ej, tuple) else (ej,)) if is_z3(t)]
+            if len(ej) == 1 and _valid_pattern(ej[0]):
+                pats.append(ej[0])
+        except Exception:
+            pass
+        body2 = z3.Implies(z3.And(j >= 0, j < n), z3.And(inv(j) >= 0, inv(j) < n, perm(inv(j)) == j))
+        try:
+            st.assume(z3.ForAll([j], body2, patterns=pats))
+        except z3.Z3Exception:
+            st.assume(z3.ForAll([j], body2, patterns=[inv(j)]))
         r = Seq(s.n, lambda i, s=s: s.at(perm(to_z3(i))), "list")
         saved = ex.checking
         ex.checking = False
@@ -1620,6 +1633,16 @@ class Lib:
         reg.append((x, M, v))
         st.ghost["__solves__"] = reg
         return x
+
+    def sf_key_position(self, ex, node, st):
+        """key_position(d, k): the place of key k in the iteration order of dictionary d (meaningful when k in d).
+        Mentioning it is how a contract instantiates 'a present key is enumerated somewhere'."""
+        d = ex.eval(node.args[0], st)
+        k = ex.eval(node.args[1], st)
+        keys = ex.dict_keys(d, st)
+        if not (isinstance(keys.width, tuple) and keys.width[0] == "keypos"):
+            raise EngineError("key_position of a dictionary without a symbolic iteration order")
+        return keys.width[1](*[to_z3(t) for t in key_terms(k)])
 
     def sf_lstsq_solution(self, ex, node, st):
         """lstsq_solution(A, b): the array numpy.linalg.solve returned for (A^T A) x = A^T b in this execution, for
